@@ -789,3 +789,193 @@ Qed.
 Theorem never_duplicated : forall s u e,
   NoDup (map ek (select s u)) /\ (occ e (select s u) <= 1)%nat.
 Proof. intros; split; [apply select_keys_nodup|apply select_at_most_once]. Qed.
+
+(** * The lockstep fragment: one lifetime, no manual FLUSH
+
+    Positions in [stored ls]: the [k]-th memtable rotation (segment [k]) holds the
+    positions [k*c .. (k+1)*c-1]; so does WAL file [k]. *)
+
+Definition at_pos (P : list event) (i : N) (e : event) : Prop := nth_error P (N.to_nat i) = Some e.
+
+Lemma at_pos_lt : forall P i e, at_pos P i e -> i < len P.
+Proof.
+  unfold at_pos, len; intros P i e H.
+  assert (H0 : nth_error P (N.to_nat i) <> None) by congruence. apply nth_error_Some in H0. lia.
+Qed.
+
+Lemma at_pos_in : forall P i e, at_pos P i e -> In e P.
+Proof. unfold at_pos; intros P i e H; eapply nth_error_In, H. Qed.
+
+Lemma at_pos_app_l : forall P Q i e, at_pos P i e -> at_pos (P ++ Q) i e.
+Proof.
+  unfold at_pos; intros P Q i e H. rewrite nth_error_app1; [exact H|]. apply nth_error_Some; congruence.
+Qed.
+
+Lemma at_pos_app_inv : forall P Q i e, at_pos (P ++ Q) i e -> i < len P -> at_pos P i e.
+Proof.
+  unfold at_pos, len; intros P Q i e H L. rewrite nth_error_app1 in H; [exact H|lia].
+Qed.
+
+Lemma at_pos_mid : forall A e B, at_pos (A ++ e :: B) (len A) e.
+Proof.
+  unfold at_pos, len; intros A e B. rewrite Nat2N.id, nth_error_app2, PeanoNat.Nat.sub_diag; [reflexivity|lia].
+Qed.
+
+Lemma at_pos_snoc : forall P x i e, at_pos (P ++ [x]) i e -> at_pos P i e \/ (i = len P /\ e = x).
+Proof.
+  intros P x i e H. destruct (N.ltb_spec i (len P)) as [L|L].
+  - left; eapply at_pos_app_inv; eassumption.
+  - right. pose proof (at_pos_lt _ _ _ H) as L2. rewrite len_app, len_cons, len_nil in L2.
+    assert (E : i = len P) by lia. split; [exact E|]. subst i.
+    pose proof (at_pos_mid P x []) as M. unfold at_pos in *. congruence.
+Qed.
+
+Lemma mul_le : forall a b c, a <= b -> a * c <= b * c.
+Proof. intros; apply N.mul_le_mono_r; assumption. Qed.
+
+(** ** what the head of the flush queue says about the disk *)
+
+Definition indexed (st : stage) : bool := match st with StQueued | StBegun => false | _ => true end.
+
+(** segment id of the job being processed (next id when idle) *)
+Definition hseg (js : list job) (a : N) : N := match js with [] => a | j :: _ => jseg j end.
+(** number of segments whose directory is complete *)
+Definition pubn (js : list job) (a : N) : N :=
+  match js with [] => a | j :: _ => if indexed (jstage j) then jseg j + 1 else jseg j end.
+(** strict bound of the existing directory ids *)
+Definition dirbound (js : list job) (a : N) : N :=
+  match js with [] => a | j :: _ => match jstage j with StQueued => jseg j | _ => jseg j + 1 end end.
+
+(** the queued jobs are the rotations [h, h+1, .., a-1]; job [k] holds the positions of chunk [k] *)
+Fixpoint jobs_from (P : list event) (c h : N) (js : list job) (a : N) : Prop :=
+  match js with
+  | [] => h = a
+  | j :: r => jseg j = h /\ jevs j <> [] /\
+              (forall i e, h * c <= i < (h + 1) * c -> at_pos P i e -> In e (jevs j)) /\
+              jobs_from P c (h + 1) r a
+  end.
+
+Lemma jobs_from_le : forall P c js h a, jobs_from P c h js a -> h <= a.
+Proof.
+  induction js as [|j r IH]; intros h a H; cbn [jobs_from] in H; [lia|].
+  destruct H as (_ & _ & _ & H). apply IH in H. lia.
+Qed.
+
+Lemma jobs_from_ext : forall P Q c js h a,
+  jobs_from P c h js a -> a * c <= len P -> jobs_from (P ++ Q) c h js a.
+Proof.
+  induction js as [|j r IH]; intros h a H L; cbn [jobs_from] in *; [exact H|].
+  destruct H as (H1 & H2 & H3 & H4). repeat split; [exact H1|exact H2| |apply IH; assumption].
+  intros i e Hi Hp. apply (H3 i e Hi). apply at_pos_app_inv with (Q := Q); [exact Hp|].
+  pose proof (jobs_from_le _ _ _ _ _ H4) as Hle. pose proof (mul_le _ _ c Hle). lia.
+Qed.
+
+Lemma jobs_from_snoc : forall P c js h a j,
+  jobs_from P c h js a -> jseg j = a -> jevs j <> [] ->
+  (forall i e, a * c <= i < (a + 1) * c -> at_pos P i e -> In e (jevs j)) ->
+  jobs_from P c h (js ++ [j]) (a + 1).
+Proof.
+  induction js as [|x r IH]; intros h a j H Hs Hn Hj; cbn [jobs_from app] in *.
+  - subst h. repeat split; assumption || reflexivity.
+  - destruct H as (H1 & H2 & H3 & H4). repeat split; try assumption. apply IH; assumption.
+Qed.
+
+Lemma hseg_snoc : forall js a j, jseg j = a -> hseg (js ++ [j]) (a + 1) = hseg js a.
+Proof. intros [|x r] a j H; cbn [app hseg]; [exact H|reflexivity]. Qed.
+Lemma pubn_snoc : forall js a j, jseg j = a -> jstage j = StQueued -> pubn (js ++ [j]) (a + 1) = pubn js a.
+Proof. intros [|x r] a j H Hq; cbn [app pubn]; [rewrite Hq; exact H|reflexivity]. Qed.
+Lemma dirbound_snoc : forall js a j, jseg j = a -> jstage j = StQueued -> dirbound (js ++ [j]) (a + 1) = dirbound js a.
+Proof. intros [|x r] a j H Hq; cbn [app dirbound]; [rewrite Hq; exact H|reflexivity]. Qed.
+
+(** ** the lockstep invariant *)
+
+Record lock_inv (c : N) (P D : list event) (s : shard) : Prop := {
+  li_cap : cap s = c;
+  li_fifo : P = D ++ walq s;
+  li_cnt : len D = wcur s * c + wcnt s /\ wcnt s <= c;
+  li_ids : forall f, In f (walfiles s) -> fst f <= wcur s;
+  li_files : forall f e, In f (walfiles s) -> In e (snd f) -> exists i, i < (fst f + 1) * c /\ at_pos P i e;
+  li_mem : len P = alloc0 s * c + len (mem s) /\ len (mem s) < c;
+  li_memrows : forall i e, alloc0 s * c <= i -> at_pos P i e -> In e (mem s);
+  li_jobs : jobs_from P c (hseg (jobs s) (alloc0 s)) (jobs s) (alloc0 s);
+  li_tail : Forall (fun j => jstage j = StQueued) (tl (jobs s));
+  li_pub : forall i e, i < pubn (jobs s) (alloc0 s) * c -> at_pos P i e -> In e (drows (dirs s));
+  li_unl : wunlinked s = true -> wcur s < pubn (jobs s) (alloc0 s);
+  li_dirs : forall d, In d (dirs s) -> sid d < dirbound (jobs s) (alloc0 s);
+  li_head : forall j r, jobs s = j :: r -> jstage j = StBegun ->
+            forall e, In e (jevs j) -> has_uid (dirs s) (jseg j) (euid e) = true -> In e (drows (dirs s));
+  li_lost : forall e, In e (wlost s) -> In e (drows (dirs s))
+}.
+
+Lemma lock_init : forall c, 0 < c -> lock_inv c [] [] (init c).
+Proof.
+  intros c Hc. constructor; unfold init; proj; cbn [hseg pubn dirbound jobs_from tl app].
+  - reflexivity.
+  - reflexivity.
+  - rewrite len_nil. lia.
+  - intros f [<-|[]]. cbn [fst]. lia.
+  - intros f e [<-|[]] [].
+  - rewrite len_nil. lia.
+  - intros i e _ H. apply at_pos_in in H. destruct H.
+  - reflexivity.
+  - constructor.
+  - intros i e H. lia.
+  - discriminate.
+  - intros d [].
+  - discriminate.
+  - intros e [].
+Qed.
+
+Lemma lock_store : forall c P D s e, 0 < c ->
+  lock_inv c P D s -> lock_inv c (P ++ [e]) D (store s e).
+Proof.
+  intros c P D s e Hc [Icap Ififo Icnt Iids Ifiles Imem Imemrows Ijobs Itail Ipub Iunl Idirs Ihead Ilost].
+  destruct (store_frame s e) as (Ec & Eq & Ef & Ed & El & Ew & En & Eu & _).
+  pose proof (jobs_from_le _ _ _ _ _ Ijobs) as Hha.
+  assert (Hext : forall i x, i < alloc0 s * c -> at_pos (P ++ [e]) i x -> at_pos P i x).
+  { intros i x Hi Hx. apply at_pos_app_inv with (Q := [e]); [exact Hx|lia]. }
+  assert (Hpa : pubn (jobs s) (alloc0 s) <= alloc0 s).
+  { destruct (jobs s) as [|j r]; cbn [pubn hseg jobs_from] in *; [lia|].
+    destruct Ijobs as (Hs & _ & _ & Hr). apply jobs_from_le in Hr. destruct (indexed (jstage j)); lia. }
+  destruct (store_cases s e) as [(Hlt & Em & Ep & Ej & Ea)|(Hge & Em & Ep & Ej & Ea)];
+    constructor; rewrite ?Ec, ?Eq, ?Ef, ?Ed, ?El, ?Ew, ?En, ?Eu, ?Em, ?Ej, ?Ea.
+  - exact Icap.
+  - rewrite Ififo, app_assoc; reflexivity.
+  - exact Icnt.
+  - exact Iids.
+  - intros f x Hf Hx. destruct (Ifiles f x Hf Hx) as [i [Hi Hp]]. exists i; split; [exact Hi|apply at_pos_app_l, Hp].
+  - rewrite !len_app, len_cons, len_nil. rewrite Icap in Hlt. lia.
+  - intros i x Hi Hp. apply in_app_iff. apply at_pos_snoc in Hp.
+    destruct Hp as [Hp|[_ ->]]; [left; eapply Imemrows; eassumption|right; left; reflexivity].
+  - apply jobs_from_ext; [exact Ijobs|lia].
+  - exact Itail.
+  - intros i x Hi Hp. apply (Ipub i x Hi). apply Hext; [|exact Hp]. pose proof (mul_le _ _ c Hpa). lia.
+  - exact Iunl.
+  - exact Idirs.
+  - exact Ihead.
+  - exact Ilost.
+  - exact Icap.
+  - rewrite Ififo, app_assoc; reflexivity.
+  - exact Icnt.
+  - exact Iids.
+  - intros f x Hf Hx. destruct (Ifiles f x Hf Hx) as [i [Hi Hp]]. exists i; split; [exact Hi|apply at_pos_app_l, Hp].
+  - rewrite !len_app, len_cons, !len_nil. rewrite Icap in Hge. lia.
+  - intros i x Hi Hp. apply at_pos_lt in Hp. rewrite len_app, len_cons, len_nil in Hp.
+    rewrite Icap in Hge. lia.
+  - rewrite <- N.add_1_r. rewrite hseg_snoc by reflexivity. apply jobs_from_snoc; proj.
+    + apply jobs_from_ext; [exact Ijobs|lia].
+    + reflexivity.
+    + destruct (mem s); discriminate.
+    + intros i x Hi Hp. apply in_app_iff. apply at_pos_snoc in Hp.
+      destruct Hp as [Hp|[_ ->]]; [left; eapply Imemrows; [|exact Hp]; lia|right; left; reflexivity].
+  - destruct (jobs s) as [|j r]; cbn [app tl] in *; [constructor|].
+    apply Forall_app; split; [exact Itail|constructor; [reflexivity|constructor]].
+  - rewrite <- N.add_1_r, pubn_snoc by reflexivity.
+    intros i x Hi Hp. apply (Ipub i x Hi). apply Hext; [|exact Hp]. pose proof (mul_le _ _ c Hpa). lia.
+  - rewrite <- N.add_1_r, pubn_snoc by reflexivity. exact Iunl.
+  - rewrite <- N.add_1_r, dirbound_snoc by reflexivity. exact Idirs.
+  - intros j r Ejr Est. destruct (jobs s) as [|j0 r0] eqn:Ejs; cbn [app] in Ejr.
+    + inversion Ejr; subst j; discriminate.
+    + inversion Ejr; subst j0 r. apply (Ihead j r0 eq_refl Est).
+  - exact Ilost.
+Qed.
